@@ -1812,6 +1812,9 @@ class ArmV6:
             if not opcode_c:
                 raise UndefinedInstructionException()
             opcode_c = opcode_c.from_bitarray(instr, self)
+            if opcode_c is None:
+                # UNPREDICTABLE encoding rejected by from_bitarray: behave as UNDEFINED
+                raise UndefinedInstructionException()
             self.execute_instruction(opcode_c)
             self.increment_pc_if_needed()
         except EndOfInstruction:
